@@ -112,6 +112,8 @@ class Env:
                 # aliased enter/exit methods; not in the fallback modes: the referents implementation recognises exit
                 # methods by their function name, a documented limitation outside C20's program space
                 cls = AM2 if self.r.is_async[i] else M2
+            elif i % 4 == 1 and self.r.is_async[i]:
+                cls = AM3       # plain-def __aenter__/__aexit__ returning an awaitable: `async with` is decided by the statement
             else:
                 cls = AM if self.r.is_async[i] else M
             m = cls(self, i, self.r.shape[i])
@@ -232,6 +234,17 @@ class AM2(AM):
 
     __aenter__ = _acome
     __aexit__ = _aleave
+
+
+class AM3(AM):
+    """an async manager whose __aenter__/__aexit__ are PLAIN functions that return an awaitable (delegation):
+    whether a context is async is a fact about the with statement, not about how the manager is written"""
+
+    def __aenter__(self):
+        return AM.__aenter__(self)
+
+    def __aexit__(self, *exc):
+        return AM.__aexit__(self, *exc)
 
 
 def _gcm_enter(env, i):
